@@ -354,7 +354,7 @@ func (e *enumerator) stmt(s ast.Stmt, p Path, depth int, k kont) {
 				case "ret", "panic":
 					k(p2, ctl)
 				case "break":
-					after(p2)
+					after(append(p2, Event{Kind: "ENDLOOP"}))
 				default:
 					if v.Post != nil {
 						e.events(v.Post, p2, depth, next)
